@@ -29,7 +29,7 @@ enum OpKind {
 //   processIf: a = accept mask, c = predicate kind (0..6)
 //   copy/move/swap: a = other object
 enum { U_VARIANT = 0, U_FILL = 1, U_OBJECTS = 2 };
-enum { V_LIST = 0, V_LIST_SINGLE = 1, V_DISPATCHER = 2, V_QUEUE = 3, V_QUEUE_SINGLE = 4, V_QUEUE_INCLUDE_EVENT = 5, V_QUEUE_REF_PROTOS = 6, V_COUNT = 7 };
+enum { V_LIST = 0, V_LIST_SINGLE = 1, V_DISPATCHER = 2, V_QUEUE = 3, V_QUEUE_SINGLE = 4, V_QUEUE_INCLUDE_EVENT = 5, V_QUEUE_REF_PROTOS = 6, V_QUEUE_INCLUDE_BYVALUE_GETEVENT = 7, V_COUNT = 8 };
 enum Shape { S_NONE = 0, S_INT = 1, S_SHORT = 2, S_DOUBLE = 3, S_CSTR = 4, S_STRING = 5, S_TR_INT = 6, S_BIG = 7, S_COUNT = 8 };
 enum { NKIND = 9, NPRED = 7 };
 
@@ -762,18 +762,26 @@ struct IK0 : FBase { explicit IK0(int id) : FBase(id) {} void operator() (std::s
 struct IK1 : FBase { explicit IK1(int id) : FBase(id) {} void operator() (const std::string & s, int a) const { rep(1, strHash(s), a); } };
 struct IK2 : FBase { explicit IK2(int id) : FBase(id) {} void operator() (std::string s, const Tr & t) const { rep(2, strHash(s), trCanon(t)); } };
 
-struct IncTraits
+// the same with a user getEvent policy that takes the event BY VALUE: obtaining the event must not move the caller's argument away
+struct PolIncludeByValue
 {
-	typedef eventpp::HeterEventQueue<std::string, IncProtos, PolInclude> Q;
+	typedef eventpp::ArgumentPassingIncludeEvent ArgumentPassingMode;
+	template <typename ...A> static std::string getEvent(std::string e, const A & ...) { return e; }
+};
+
+template <typename POL>
+struct IncTraitsT
+{
+	typedef eventpp::HeterEventQueue<std::string, IncProtos, POL> Q;
 	enum { nproto = 3 };
-	static Q::Handle add(Q & q, int key, int proto, int cb, bool prepend)
+	static typename Q::Handle add(Q & q, int key, int proto, int cb, bool prepend)
 	{
 		const std::string k = incKey(key);
 		if(proto == 0) { IK0 f(cb); return prepend ? q.prependListener(k, f) : q.appendListener(k, f); }
 		if(proto == 1) { IK1 f(cb); return prepend ? q.prependListener(k, f) : q.appendListener(k, f); }
 		IK2 f(cb); return prepend ? q.prependListener(k, f) : q.appendListener(k, f);
 	}
-	static bool remove(Q & q, int key, const Q::Handle & h) { return q.removeListener(incKey(key), h); }
+	static bool remove(Q & q, int key, const typename Q::Handle & h) { return q.removeListener(incKey(key), h); }
 	// form: 0 the key is an lvalue, 1 a temporary, 2 a moved local
 	static void call(Q * q, bool enqueue, int key, int proto, int v, int form)
 	{
@@ -796,6 +804,8 @@ struct IncTraits
 	static long expectB(int, int proto, int v) { return proto == 0 ? 0 : v; }
 	static const char * what() { return "(event included in the arguments)"; }
 };
+typedef IncTraitsT<PolInclude> IncTraits;
+typedef IncTraitsT<PolIncludeByValue> IncByValueTraits;
 
 // ---------------------------------------------------------------- prototypes that differ only in how they take the same type
 // HeterEventQueue<int, {void(int &), void(int)}>: an lvalue argument selects the first prototype, an rvalue the second (the first is not
@@ -1071,6 +1081,8 @@ void runVariant4(const Plan & p, RunOut & o) { runBox<DispBox<PolSingle, true> >
 void runVariant5(const Plan & p, RunOut & o) { runMini<IncTraits>(p, o); }
 #elif SEQ_VARIANT == 6
 void runVariant6(const Plan & p, RunOut & o) { runMini<RefTraits>(p, o); }
+#elif SEQ_VARIANT == 7
+void runVariant7(const Plan & p, RunOut & o) { runMini<IncByValueTraits>(p, o); }
 #endif
 
 } // namespace sh
@@ -1082,7 +1094,7 @@ Sink * g_sink = nullptr;
 Counters counters;
 void runVariant0(const Plan &, RunOut &); void runVariant1(const Plan &, RunOut &); void runVariant2(const Plan &, RunOut &);
 void runVariant3(const Plan &, RunOut &); void runVariant4(const Plan &, RunOut &); void runVariant5(const Plan &, RunOut &);
-void runVariant6(const Plan &, RunOut &);
+void runVariant6(const Plan &, RunOut &); void runVariant7(const Plan &, RunOut &);
 }
 
 namespace engine {
@@ -1163,7 +1175,7 @@ void execute(const Plan & plan, RunOut & out)
 	const int v = plan.user(sh::U_VARIANT);
 	switch(v) {
 	case 0: sh::runVariant0(plan, out); break; case 1: sh::runVariant1(plan, out); break; case 2: sh::runVariant2(plan, out); break;
-	case 3: sh::runVariant3(plan, out); break; case 4: sh::runVariant4(plan, out); break; case 6: sh::runVariant6(plan, out); break; default: sh::runVariant5(plan, out); break;
+	case 3: sh::runVariant3(plan, out); break; case 4: sh::runVariant4(plan, out); break; case 6: sh::runVariant6(plan, out); break; case 7: sh::runVariant7(plan, out); break; default: sh::runVariant5(plan, out); break;
 	}
 	++sh::counters.plans;
 	if(v >= 0 && v < sh::V_COUNT) ++sh::counters.perVariant[v];
@@ -1179,7 +1191,7 @@ void execute(const Plan & plan, RunOut & out)
 std::string describe(const Plan & plan)
 {
 	static const char * vn[] = { "HeterCallbackList", "HeterCallbackList/SingleThreading", "HeterEventDispatcher", "HeterEventQueue", "HeterEventQueue/SingleThreading", "HeterEventQueue<std::string>/ArgumentPassingIncludeEvent",
-		"HeterEventQueue<int, {void(int&), void(int)}>" };
+		"HeterEventQueue<int, {void(int&), void(int)}>", "HeterEventQueue<std::string>/ArgumentPassingIncludeEvent/getEvent policy taking the event by value" };
 	static const char * names[] = { "?", "append", "prepend", "insert", "remove", "empty", "forEach", "invoke", "enqueue", "process", "processOne", "processIf", "clearEvents", "emptyQueue",
 		"copyConstruct", "copyAssign", "moveConstruct", "moveAssign", "swap", "destroy", "create" };
 	static const char * shapes[] = { "()", "(int)", "(short)", "(double)", "(const char*)", "(string)", "(Tr,int)", "(Big)" };
